@@ -1,6 +1,7 @@
 from props import job
 
 PROP = dict(
+    technique='the C01 state machine with disconnect/reload actions; crash-point enumeration by loading both sides afresh from bbolt after every state-machine call; model-based comparison of the restored state, persisted-vs-memory round trip',
     level="fault_enumeration",
     rule=("C01's generated schedules with cuts; after EVERY state-machine call (each call is one atomic kvdb "
           "write, so this enumerates the crash points of the schedule) both sides are loaded afresh from their "
